@@ -257,7 +257,7 @@ func (h *c03H) testdataPhase() {
 	for _, r := range roots {
 		if c03GoVersDir.MatchString(filepath.Base(r)) {
 			k++
-			if !vx.Thorough() && k%7 != 0 {
+			if !vx.Thorough() && k%10 != 0 {
 				continue
 			}
 		}
@@ -358,7 +358,7 @@ func (h *c03H) repoPhase() {
 	sort.Strings(pats)
 	h.res.Count("repo_packages_listed", int64(len(pats)))
 	if !vx.Thorough() {
-		// framework packages, and every 9th check package
+		// framework packages, and every 12th check package
 		var sel []string
 		k := 0
 		for _, p := range pats {
@@ -370,7 +370,7 @@ func (h *c03H) repoPhase() {
 			}
 			if isCheck {
 				k++
-				if k%9 != 0 {
+				if k%12 != 0 {
 					continue
 				}
 			}
